@@ -222,8 +222,10 @@ def param_to_doc(p: Any) -> Any:
 
 
 def jump_table() -> dict:
-    from explorerscript.ssb_converting.ssb_special_ops import OPS_WITH_JUMP_TO_MEM_OFFSET
-    return dict(OPS_WITH_JUMP_TO_MEM_OFFSET)
+    # the pinned specification table (generated from lean/ESV/Beh/Spec.lean), never the table of the /repo under test:
+    # an edited OPS_WITH_JUMP_TO_MEM_OFFSET must not move the oracle along with the code (its tie is ESV.TableTie)
+    from .. import spec_tables
+    return dict(spec_tables.OPS_WITH_JUMP)
 
 
 def positions(rs: dict) -> dict:
